@@ -95,6 +95,8 @@ def check(tier, seed, replay=None):
         "states": v.distinct,
         "transitions": v.generated,
         "families": meta,
+        "unverifiable_overflow": v.overflow_ids[:10],
+        "unverifiable_overflow_count": len(v.overflow_ids),
     }
     o.assumptions = ["the point at which a wall-clock limit fires cannot be chosen, only sampled; every observed return must be allowed",
                      "gap acceptance uses max(|value|,|optimum|) as denominator (superset of microlp's definition)"]
